@@ -195,7 +195,7 @@ def run(repo: Repo, chk: Check) -> None:
     it.max_recursion = 4
 
     def dupq(prim, args):
-        r = it.run_paths(lambda i: i.call_function(FuncRef(isd, _TypeCls(prim, args), True), [], {}, None, force_inline=True))
+        r = it.run_paths(lambda i: i.call(i.getattr(_TypeCls(prim, args), 'is_duplicable', None), [], {}, None))  # dispatched on the class of the prim
         return r[0].value if len(r) == 1 and r[0].outcome == 'return' else None
 
     cases = {
@@ -409,7 +409,10 @@ class _DupHooks(Hooks):
             if name == 'args':
                 return obj.args
             if name == 'is_duplicable':
-                fi = it.repo.func(f'{T}.base.MichelsonType.is_duplicable')
+                # the method of the class registered for that prim (a type class may override the generic rule)
+                base = f'{T}.base.MichelsonType'
+                q = next((c for c in [base] + it.repo.subclasses(base) if it.repo.classes[c].keywords.get('prim') == obj.prim), base)
+                fi = it.repo.find_method(q, 'is_duplicable') or it.repo.func(f'{base}.is_duplicable')
                 return FuncRef(fi, obj, True)
         return NotImplemented
 
